@@ -50,7 +50,7 @@ def kernel_batch(thetas, bins, rng, tdtype="float64", bin_den=1, affine=(0.0, 1.
 
 
 def grid_batch(thetas, bins, rng, centres, chunk, extra_first, names=None, tdtype="float64", bin_den=1, bypass=None,
-               affine=(0.0, 1.0), td_default=False):
+               affine=(0.0, 1.0), td_default=False, more_pos=()):
     """the same through Grid.transform: columns along an extra dimension"""
     import numpy as np
     import xarray as xr
@@ -64,7 +64,15 @@ def grid_batch(thetas, bins, rng, centres, chunk, extra_first, names=None, tdtyp
     # target_data left out: the axis' outer coordinate is the default (td_default; all columns then share it)
     ds = xr.Dataset(coords={nm("zc"): (nm("zc"), np.arange(n) + 0.5), nm("zo"): (nm("zo"), th[0] if td_default else np.arange(n + 1) * 1.0),
                             nm("col"): (nm("col"), np.arange(ncol))})
-    grid = xgcm.Grid(ds, coords={nm("Z"): {"center": nm("zc"), "outer": nm("zo")}}, periodic=False, autoparse_metadata=False)
+    # the axis may have further positions besides center and outer (they play no role in the transform)
+    zpos = {"center": nm("zc"), "outer": nm("zo")}
+    for p_ in more_pos:
+        dname = nm({"left": "zl", "right": "zr", "inner": "zi"}[p_])
+        ds = ds.assign_coords({dname: (dname, np.arange(n - 1 if p_ == "inner" else n) + (0.0 if p_ == "left" else 1.0))})
+        zpos[p_] = dname
+    order_ = list(zpos)
+    rng.shuffle(order_)
+    grid = xgcm.Grid(ds, coords={nm("Z"): {p_: zpos[p_] for p_ in order_}}, periodic=False, autoparse_metadata=False)
     tdim = nm("zc") if centres else nm("zo")
     dims_t = (nm("col"), tdim) if extra_first else (tdim, nm("col"))
     tdata = xr.DataArray(th if extra_first else th.T, dims=dims_t, name=nm("theta"))
@@ -126,7 +134,7 @@ def execute(job):
             W, phis, lin, lin_rev, newdim = grid_batch(job["thetas"], job["bins"], rng, centres, job.get("chunk", False),
                                                        job.get("extra_first", True), None, job.get("tdtype", "float64"),
                                                        job.get("bin_den", 1), job.get("bypass"), tuple(job.get("affine", (0.0, 1.0))),
-                                                       bool(job.get("td_default")))
+                                                       bool(job.get("td_default")), tuple(job.get("more_pos", ())))
             scale = 2 if centres else 1
             if centres:
                 thetas = []
@@ -142,6 +150,7 @@ def execute(job):
                          "bins": [v * scale for v in job["bins"]], "phi": phis[c], "ncol": len(job["ids"]),
                          "chunk": bool(job.get("chunk")), "expect_newdim": ["-"] if job["via"] == "kernel" else ["theta"],
                          "affine": list(job.get("affine", (0.0, 1.0))), "td_default": bool(job.get("td_default")),
+                         "more_pos": list(job.get("more_pos", [])),
                          "out": {"k": "weights", "W": W[c], "lin": lin[c], "lin_rev": lin_rev[c], "newdim": newdim}})
     except Exception as ex:
         for c, cid in enumerate(job["ids"]):
@@ -190,6 +199,7 @@ def gen_jobs(rng, thorough):
             thetas = [thetas[0] for _ in thetas]
         jobs.append({"via": via, "thetas": thetas, "bins": bins, "ids": ids, "seed": cid, "bin_den": bin_den,
                      "tdtype": tdtype, "affine": list(affine), "td_default": td_default,
+                     "more_pos": rng.sample(["left", "right", "inner"], rng.choice([0, 0, 1, 2])) if n >= 2 else [],
                      "bypass": rng.choice([None, None, True, False]) if via != "kernel" else None,
                      "chunk": rng.random() < 0.4, "extra_first": rng.random() < 0.5})
     return jobs
@@ -248,7 +258,7 @@ def replay(ctx, rp):
         else:
             den = c.get("bin_den", 1)
             job = {"via": c["via"], "thetas": [[v // den for v in c["theta"]]], "bins": c["bins"], "ids": [c["id"]], "seed": 1}
-        job.update({"affine": c.get("affine", [0.0, 1.0]), "td_default": c.get("td_default", False)})
+        job.update({"affine": c.get("affine", [0.0, 1.0]), "td_default": c.get("td_default", False), "more_pos": c.get("more_pos", [])})
         job.update({"bin_den": c.get("bin_den", 1), "tdtype": c.get("tdtype", "float64"),
                     "bypass": {"True": True, "False": False}.get(c.get("bypass"))})
         recs += execute(job)
